@@ -315,10 +315,19 @@ def run_job(ctx, job):
             for d in check_identity(c):
                 ctx.violation(d, "identity", c)
             ctx.case(("ptype", t), True, ["list_identity", "known-product-types"])
+        # "encoding an identity and decoding it again is the identity": for every registered id as well
+        from .c06 import check_ident
+        for idn in [dict(base, vendor=v, product_type=12) for v in sorted(VENDORS)] + [dict(base, vendor=1, product_type=t) for t in sorted(PRODUCT_TYPES)]:
+            for d in check_ident(idn):
+                ctx.violation(Disc("tabled." + d.bucket, d.detail), "ident", {k: v for k, v in idn.items()})
+            ctx.case(("reencode", idn["vendor"], idn["product_type"]), True, ["identity-reencode"])
         ctx.exhaustive_parts.append("every tabled vendor id and product-type id")
         return
     hyp_search(ctx, "identity", cases(), lambda c: (check_identity(c), nontrivial(c), [{"_list_identity": "list_identity"}.get(c["entry"], c["entry"])]), job["examples"])
 
 
 def replay(ctx, kind, case):
+    if kind == "ident":
+        from .c06 import check_ident
+        return check_ident(case)
     return check_identity(case)
